@@ -39,7 +39,7 @@ const (
 	hdr       = 21
 	maxPay    = 1427
 	sampleCap = 6000 // samples a single Write may draw before the harness aborts it
-	writeWall = 20 * time.Second // wall-clock budget of a single Write (IAT sleeps included)
+	writeWall = 60 * time.Second // wall-clock budget of a single Write (IAT sleeps included)
 )
 
 // ---------------------------------------------------------------- rand reader with an abort limit
@@ -533,6 +533,9 @@ func runWrite(r *vlib.Run, d *vlib.Driver, p *pair, side string, n int, indices 
 	}
 	data := make([]byte, n)
 	capS := sampleCap
+	if len(indices)+1000 > capS {
+		capS = len(indices) + 1000
+	}
 	if sc.Cap > 0 {
 		capS = sc.Cap
 	}
@@ -638,7 +641,19 @@ func indicesFor(rng *vlib.Rng, ld *dist, mode, n int, policy string) []int {
 	nv := len(ld.values)
 	count := 8 + n/mss
 	if mode == 2 {
-		count = 600
+		// enough steered samples for the worst case (every sample the smallest non-zero length,
+		// a third of them zero, every drain followed by a two-frame padding), so that a Write on a
+		// normal table never falls back to unsteered randomness
+		m := mss
+		for _, v := range ld.values {
+			if v > 0 && v < m {
+				m = v
+			}
+		}
+		count = 5*(dataFramesLen(n)+3000)/m + 100
+		if count > 40000 {
+			count = 40000
+		}
 	}
 	idx := make([]int, count)
 	zero := indexOf(ld.values, 0)
